@@ -15,6 +15,20 @@
 //@subst /println!\([^;]*\);/ -> "{}"
 //@endslice
 
+// C12: validate() with the flag loops dropped and the two per-sample calls replaced by oracles: what remains is the chunked
+// pairing pipeline, the accuracy rule and the aggregation, verbatim.
+//@slice fn=verif_validate_slice impl=Network src=validate sig="<P: Fn(&tensor::Tensor) -> tensor::Tensor, L: Fn(&tensor::Tensor, &tensor::Tensor) -> (f32, tensor::Tensor)>(&self, inputs: &[&tensor::Tensor], targets: &[&tensor::Tensor], tol: f32, oracle_predict: P, oracle_loss: L) -> (f32, f32)" protect=results,loss,acc
+//@drop /let mut training: bool = false;/../let mut training: bool = false;/
+//@drop /for layer in &mut self\.layers \{/../for layer in &mut self\.layers \{/
+//@drop /if training \{/../if training \{/
+//@subst /self\.predict\(input\)/ -> "oracle_predict(input)"
+//@subst /self\.objective\.loss\(&prediction, target\)/ -> "oracle_loss(&prediction, target)"
+//@endslice
+// predict_batch() with predict() as an oracle
+//@slice fn=verif_predict_batch_slice impl=Network src=predict_batch sig="<P: Fn(&tensor::Tensor) -> tensor::Tensor>(&self, inputs: &Vec<&tensor::Tensor>, oracle_predict: P) -> Vec<tensor::Tensor>" protect=none
+//@subst /self\.predict\(input\)/ -> "oracle_predict(input)"
+//@endslice
+
 // C09: the flag-handling regions of validate() and learn(), each emitted verbatim as a method of its own.
 //@region fn=verif_validate_prologue impl=Network src=validate part="region:/let mut training: bool = false;/../for layer in &mut self\.layers \{/" sig="(&mut self) -> bool" tail="training"
 //@region fn=verif_validate_epilogue impl=Network src=validate part="region:/if training \{/../if training \{/" sig="(&mut self, training: bool)" tail=""
@@ -84,6 +98,100 @@ mod harnesses {
         kani::cover!(x == 2.0);
         std::mem::forget(l);
     }
+    // ---------------------------------------------------------------- C12
+    fn one_dense(act: Activation) -> Network {
+        let mut net = Network::new(Shape::Single(1));
+        net.layers.push(Layer::Dense(dense::Dense::create(Shape::Single(1), Shape::Single(2), &act, false, None)));
+        net
+    }
+    fn grid01() -> f32 { let k: u8 = kani::any(); kani::assume(k <= 4); k as f32 * 0.25 }
+    fn argmax2(v: &[f32; 2]) -> usize { if v[1] >= v[0] { 1 } else { 0 } }   // `max_by` returns the LAST maximal element
+
+    macro_rules! validate_harness {
+        ($name:ident, $act:expr, $softmax:expr, $n:expr) => {
+            #[kani::proof]
+            #[kani::unwind(6)]
+            #[kani::stub(std::collections::hash_map::RandomState::new, rs_stub)]
+            #[kani::stub(crate::tensor::Tensor::random, random_stub)]
+            fn $name() {
+                let net = one_dense($act);
+                let tol = 0.3f32;
+                // per-sample data: input i carries the tag i; prediction and loss are read from symbolic tables by that tag
+                let mut preds: [[f32; 2]; 3] = [[0.0; 2]; 3];
+                let mut targs: [[f32; 2]; 3] = [[0.0; 2]; 3];
+                let mut losses: [f32; 3] = [0.0; 3];
+                let mut i = 0;
+                while i < 3 { preds[i] = [grid01(), grid01()]; targs[i] = [grid01(), grid01()]; losses[i] = grid01(); i += 1; }
+                // the oracle recognises a sample by its prediction: keep the predictions distinguishable
+                kani::assume(preds[0][0] != preds[1][0] && preds[0][0] != preds[2][0] && preds[1][0] != preds[2][0]);
+                let xs = [Tensor::single(vec![0.0]), Tensor::single(vec![1.0]), Tensor::single(vec![2.0])];
+                let ts = [Tensor::single(targs[0].to_vec()), Tensor::single(targs[1].to_vec()), Tensor::single(targs[2].to_vec())];
+                let inputs: Vec<&Tensor> = xs.iter().take($n).collect();
+                let targets: Vec<&Tensor> = ts.iter().take($n).collect();
+                let (loss, acc) = net.verif_validate_slice(&inputs, &targets, tol,
+                    |x| { let tag = x.get_flat()[0] as usize; Tensor::single(preds[tag].to_vec()) },
+                    |p, t| {
+                        // the loss oracle checks that sample i's prediction is paired with sample i's target
+                        let pf = p.get_flat(); let tf = t.get_flat();
+                        let mut tag = 3; let mut k = 0;
+                        while k < 3 { if pf[0].to_bits() == preds[k][0].to_bits() && pf[1].to_bits() == preds[k][1].to_bits() && tf[0].to_bits() == targs[k][0].to_bits() && tf[1].to_bits() == targs[k][1].to_bits() { tag = k; break; } k += 1; }
+                        assert!(tag < 3);
+                        (losses[tag], Tensor::single(vec![0.0, 0.0]))
+                    });
+                // reference: arithmetic means over the samples, in input order
+                let mut sl = 0.0f32; let mut sa = 0.0f32; let mut i = 0;
+                while i < $n {
+                    sl += losses[i];
+                    sa += if $softmax {
+                        if argmax2(&targs[i]) == argmax2(&preds[i]) { 1.0 } else { 0.0 }
+                    } else {
+                        let mut c = 0.0f32; let mut j = 0;
+                        while j < 2 { if (targs[i][j] - preds[i][j]).abs() < tol { c += 1.0; } j += 1; }
+                        c / 2.0
+                    };
+                    i += 1;
+                }
+                assert!(loss == sl / $n as f32);
+                assert!(acc == sa / $n as f32);
+                kani::cover!(acc > 0.0 && acc < 1.0);
+                std::mem::forget(net);
+            }
+        };
+    }
+    // @harness c12_validate_linear_n2 props=C12 tier=quick kind=bounded flags="--no-overflow-checks" bound="2 samples, 2 outputs, non-soft-max output layer, tolerance 0.3, values on the .25 grid" what="validate = (mean loss, mean fraction of components within tol), samples paired with their own targets, in order" timeout=900
+    validate_harness!(c12_validate_linear_n2, Activation::Linear, false, 2usize);
+    // @harness c12_validate_softmax_n2 props=C12 tier=quick kind=bounded flags="--no-overflow-checks" bound="2 samples, 2 outputs, soft-max output layer" what="validate with a soft-max output layer scores arg-max agreement" timeout=900
+    validate_harness!(c12_validate_softmax_n2, Activation::Softmax, true, 2usize);
+    // @harness c12_validate_linear_n3 props=C12 tier=thorough kind=bounded flags="--no-overflow-checks" bound="3 samples" what="validate aggregation, 3 samples" timeout=1800
+    validate_harness!(c12_validate_linear_n3, Activation::Linear, false, 3usize);
+    // @harness c12_validate_softmax_n3 props=C12 tier=thorough kind=bounded flags="--no-overflow-checks" bound="3 samples, soft-max" what="validate aggregation, 3 samples, arg-max rule" timeout=1800
+    validate_harness!(c12_validate_softmax_n3, Activation::Softmax, true, 3usize);
+
+    macro_rules! predict_batch_harness {
+        ($name:ident, $n:expr) => {
+            #[kani::proof]
+            #[kani::unwind(6)]
+            #[kani::stub(std::collections::hash_map::RandomState::new, rs_stub)]
+            #[kani::stub(crate::tensor::Tensor::random, random_stub)]
+            fn $name() {
+                let net = one_dense(Activation::Linear);
+                let xs = [Tensor::single(vec![small()]), Tensor::single(vec![small()]), Tensor::single(vec![small()])];
+                let inputs: Vec<&Tensor> = xs.iter().take($n).collect();
+                let out = net.verif_predict_batch_slice(&inputs, |x| Tensor::single(vec![x.get_flat()[0] * 2.0 + 1.0]));
+                // exactly predict of each input, in input order
+                assert!(out.len() == $n);
+                let mut i = 0;
+                while i < $n { assert!(out[i].get_flat()[0] == xs[i].get_flat()[0] * 2.0 + 1.0); i += 1; }
+                kani::cover!($n > 1 && xs[0].get_flat()[0] != xs[1].get_flat()[0]);
+                std::mem::forget(out); std::mem::forget(net);
+            }
+        };
+    }
+    // @harness c12_predict_batch_n2 props=C12 tier=thorough kind=bounded flags="--no-overflow-checks" bound="2 inputs" what="predict_batch = predict of each input, in input order" timeout=3000 mem=20
+    predict_batch_harness!(c12_predict_batch_n2, 2usize);
+    // @harness c12_predict_batch_n1 props=C12 tier=thorough kind=bounded flags="--no-overflow-checks" bound="1 input" what="predict_batch, one input" timeout=900
+    predict_batch_harness!(c12_predict_batch_n1, 1usize);
+
     macro_rules! flags_harness {
         ($name:ident, [$($k:expr),+]) => {
             #[kani::proof]
